@@ -25,8 +25,8 @@ ASSUMPTIONS = ["timestamps strictly increasing by at least 2 us (the +1us single
 METHODS = {"above": lambda d, t: d > t, "below": lambda d, t: d < t, "aboveequal": lambda d, t: d >= t, "belowequal": lambda d, t: d <= t}
 
 
-def thr_case(ctx, ts, st, en, data, thr, method, sc, batch):
-    inp = dict(op="threshold", ts=ts, st=st, en=en, data=data, thr=thr, method=method, scale_ns=sc)
+def thr_case(ctx, ts, st, en, data, thr, method, sc, batch, dtype="float"):
+    inp = dict(op="threshold", ts=ts, st=st, en=en, data=data, thr=thr, method=method, scale_ns=sc, dtype=dtype)
     ctx.case(("t", tuple(ts), tuple(st), tuple(en), tuple(data), method), inp if ctx.evaluations % 2003 == 9 else None)
     batch.append(inp)
 
@@ -45,7 +45,7 @@ def thr_eval(ctx, batch):
         # kernel level (compiled) vs model
         eq = None
         if n >= 0:
-            d = np.array(i["data"], dtype=float)
+            d = np.array(i["data"], dtype=np.int64 if i.get("dtype") == "int" else float)
             kt, kd, ks, ke = J.jitthreshold(farr(ts, 1), d, farr(st, 1), farr(en, 1), float(i["thr"]), i["method"])
             kern = ([int(round(v * 2e9)) for v in ks], [int(round(v * 2e9)) for v in ke])
             if o is not None:
@@ -59,7 +59,7 @@ def thr_eval(ctx, batch):
         per_iv = [[m for t, m in zip(ts, mask) if a <= t <= b] for a, b in zip(st, en)]
         fctx = dict(op="threshold", n_support_intervals=len(st), n=n, impl_equals_model=bool(eq),
                     lone_kept=any(len(v) == 1 and v[0] for v in per_iv))
-        x = nap.Tsd(farr(ts, sc), np.array(i["data"], dtype=float), time_support=iset(st, en, sc))
+        x = nap.Tsd(farr(ts, sc), np.array(i["data"], dtype=np.int64 if i.get("dtype") == "int" else float), time_support=iset(st, en, sc))
         try:
             r = x.threshold(i["thr"], i["method"])
         except Exception as e:
@@ -152,6 +152,14 @@ def run(ctx):
                     else:
                         data = [ctx.rng.choice([0] if method == "below" else [0, 1]) if m else ctx.rng.choice([1, 2] if method == "below" else [2]) for m in mask]
                     thr_case(ctx, list(ts), st, en, data, 1, method, ctx.rng.choice([2000, 10**6, 10**9]), batch)
+    # integer-valued series (counts, state labels) against a non-integer threshold, all four methods
+    for k in range(120 if ctx.quick else 1500):
+        st, en = supports[k % len(supports)]
+        inside = [t for t in range(G + 1) if any(a <= t <= b for a, b in zip(st, en))]
+        ts = sorted(ctx.rng.sample(inside, ctx.rng.randint(2, min(6, len(inside)))))
+        data = [ctx.rng.choice([-1, 0, 1, 2]) for _ in ts]
+        thr_case(ctx, ts, st, en, data, ctx.rng.choice([0.5, 1.5, -0.5, 0.25]), list(METHODS)[k % 4], ctx.rng.choice([2000, 10**6, 10**9]), batch,
+                 dtype="int")
     thr_eval(ctx, batch)
     lines, meta = [], []
     for st, en in [([0], [G]), ([0, 5], [4, G])]:
